@@ -1,7 +1,7 @@
 //! View-tree encoding of the C06 ops (one word, no spaces) and the structure a view denotes.
 //!
 //!   node := 'T' hex ';'                      text child, `String`
-//!         | 't' ty ':' hex ';'               text child of string type ty ∈ str String Arc Cow CowB Oco fn
+//!         | 't' ty ':' hex ';'               text child of string type ty ∈ str String Arc Cow CowB Oco OcoB OcoC fn (attributes also: refString TpL TpS TpF)
 //!         | 'P' ty ':' hex ';'               primitive child (char, u8 … f64, bool, IpAddr, NonZero…); hex = Display text
 //!         | 'E' tag ';' attr* '>' node* '<'  element
 //!         | K ity ':' node* '<'              child container, K ∈
